@@ -43,6 +43,8 @@ pub fn base_file(kind: usize) -> Vec<u8> {
     }
     if kind == 3 {
         fb.add(3, 0, &Val::dict(vec![("Base", Val::Int(3)), ("Rev", Val::Int(2))]));
+        // the second revision frees object 9
+        fb.free(9, 1);
         fb.finish_table(&extra, Split::Runs);
     }
     fb.bytes()
@@ -75,6 +77,8 @@ const OPS: &[(&str, OpKind)] = &[
     ("update:stream4<-stream", OpKind::Update(2, 4)),
     ("update:last-created<-dictB", OpKind::Update(3, 3)),
     ("update:last-fulfilled<-int", OpKind::Update(4, 0)),
+    ("update:object0<-dictA", OpKind::Update(5, 2)),
+    ("update:object9<-dictA", OpKind::Update(6, 2)),
     ("promise", OpKind::Promise),
     ("fulfil<-dictA", OpKind::Fulfil(2)),
     ("fulfil<-name", OpKind::Fulfil(1)),
@@ -174,7 +178,14 @@ macro_rules! run_history {
             let mut model: BTreeMap<u64, Val> = BTreeMap::new();
             let base_doc = crate::refread::RefDoc::open(&base_bytes).expect("base readable");
             for nr in [3u64, 4, 5, 6, 7, 9] {
-                model.insert(nr, base_doc.get(nr).expect("base object"));
+                // (object 9 is free in the two-revision base)
+                match base_doc.get(nr) {
+                    Ok(Val::Null) => {}
+                    Ok(v) => {
+                        model.insert(nr, v);
+                    }
+                    Err(e) => panic!("base object {}: {}", nr, e),
+                }
             }
             let mut written: Vec<u64> = vec![];
             let mut last_created: Option<PlainRef> = None;
@@ -211,12 +222,17 @@ macro_rules! run_history {
                                 Some(r) => r,
                                 None => break 'run, // not applicable: ill-formed history
                             },
-                            _ => match last_fulfilled {
+                            4 => match last_fulfilled {
                                 Some(r) => r,
                                 None => break 'run,
                             },
+                            5 => PlainRef { id: 0, gen: 65535 },
+                            _ => PlainRef { id: 9, gen: if !matches!(base_doc.get(9), Ok(Val::Null)) { 0 } else { 1 } },
                         };
+                        // updating a free object number may be refused (the document then stays as it was); it must not panic
+                        let target_is_free = !model.contains_key(&r.id) && matches!(base_doc.get(r.id), Ok(Val::Null));
                         match st.update(r, value_prim(v)) {
+                            Err(_) if target_is_free => {}
                             Ok(rc) => {
                                 let back = rc.get_ref().get_inner();
                                 if back.id != r.id {
@@ -474,7 +490,7 @@ pub fn run(tier: Tier, _seed: u64, tally: &mut Tally) -> CheckMeta {
     CheckMeta {
         prop: "C09",
         level: "model_checking",
-        rule: format!("every history of <= {} operations over a {}-symbol alphabet (create of 4 value kinds, update of a direct / compressed / stream / created / fulfilled object, promise, fulfil, typed reads, save, an update with an unserialisable value and its repair) x 4 base files (classic, xref stream + object stream, junk before the header, two revisions) x {{uncached, SyncCache}} executed on a real Storage; after every step every tracked reference is read (resolve and typed get) and compared with a map reference model; after every successful save the previous bytes must be a prefix, the independent structural reader must accept the output and find the model values, and a reload must resolve written references to the last value and untouched objects (incl. stream data) to their old value; a save with an unserialisable object must fail and a later save succeed. Ill-formed histories (fulfil without promise, save with an open promise) are skipped.", depth, OPS.len() - 1),
+        rule: format!("every history of <= {} operations over a {}-symbol alphabet (create of 4 value kinds, update of a direct / compressed / stream / created / fulfilled object, of object 0 and of an object number that is free in one base and in use in the others (a refused update must leave the document as it was), promise, fulfil, typed reads, save, an update with an unserialisable value and its repair) x 4 base files (classic, xref stream + object stream, junk before the header, two revisions the second of which frees an object) x {{uncached, SyncCache}} executed on a real Storage; after every step every tracked reference is read (resolve and typed get) and compared with a map reference model; after every successful save the previous bytes must be a prefix, the independent structural reader must accept the output and find the model values, and a reload must resolve written references to the last value and untouched objects (incl. stream data) to their old value; a save with an unserialisable object must fail and a later save succeed. Ill-formed histories (fulfil without promise, save with an open promise) are skipped.", depth, OPS.len() - 1),
         assumptions: vec!["a promise that is never fulfilled before save is outside the property".into()],
         exhaustive: true,
         bounds: json!({"depth": depth}),
